@@ -932,6 +932,21 @@ def run(ctx):
         "slowest_processes": [{"ms": r[11], "tool": r[2], "base": r[3], "deviation": r[4], "variant": r[1]} for r in slow],
     }
     infra = None
+    # native sweep under the sanitizers: every operand tuple of the 15 re-enabled opcodes (C17's enumeration, mc_bounds --mode c17) executed
+    # through Instance/StepScript in the ASan+UBSan flavour; only worker deaths (abort, trap, sanitizer report) are taken from it
+    import props as _props
+    if os.path.exists(os.path.join(ctx.bdir_asan, "mc_bounds")):
+        r17 = _props.run_engine(ctx, "mc_bounds", ["--mode", "c17"], bdir=ctx.bdir_asan)
+        if "infra_error" in r17:
+            infra = "native sanitizer sweep failed: %s" % r17["infra_error"]
+        else:
+            nat = [v for v in r17["violations"] if ":crash:" in v["key"]]
+            for v in nat:
+                violations.append({"key": "native-sweep:" + v["key"], "what": "sanitizer build, re-enabled opcode sweep: " + v["what"], "count": v.get("count", 1), "replay": v.get("replay")})
+            cov["native_sanitizer_sweep"] = {"engine": "mc_bounds --mode c17 (asan+ubsan flavour)", "operand_tuples": r17.get("cases"), "worker_deaths": len(nat)}
+            cov["distinct_violation_keys"] = len(violations)
+    else:
+        infra = "sanitizer build of mc_bounds missing"
     if any(r[7] == -1000 for r in results):
         infra = "some processes could not be spawned"
     tools_seen = set(per_tool)
